@@ -15,7 +15,7 @@ class C17(Prop):
                   'error, keepalive timeout or while healthy, with interactions pending, 1..4 times in a row.')
     level_note = 'Trusted: Lean kernel + standard axioms; provider generators are application code; transport.close() may raise (scripted); virtual clock.'
     design_ref = '§5 C17'
-    rule = ('cause of the previous connection\'s end (server EOF, transport error, keepalive timeout, healthy) x pending request-responses/streams at that moment x 1..4 consecutive '
+    rule = ('cause of the previous connection\'s end (server EOF, transport error, keepalive timeout, healthy) x pending request-responses/streams/channels with a live local publisher at that moment x 1..4 consecutive '
             'reconnects x provider/connect suspensions x close() of the old transport raising ConnectionResetError or not x a link that had stopped draining writes (requests still queued) or not; after each reconnect a request is issued and answered by the harness on the new transport and the clock is advanced by two '
             'keep-alive periods; non-trivial = something was pending or the cause was a timeout; distinct = distinct case')
     assumptions = ['the transport provider yields a fresh transport for every reconnect']
@@ -26,7 +26,8 @@ class C17(Prop):
         for _ in range(n):
             k = rng.randint(1, 4)
             out.append({'rounds': [{'cause': rng.choice(['eof', 'error', 'timeout', 'healthy']), 'pending_rr': rng.randint(0, 2), 'pending_stream': rng.randint(0, 1),
-                                    'early_request': rng.random() < 0.4, 'close_raises': rng.random() < 0.35, 'stalled': rng.random() < 0.25} for _ in range(k)],
+                                    'early_request': rng.random() < 0.4, 'close_raises': rng.random() < 0.35, 'stalled': rng.random() < 0.25,
+                                    'pending_channel': rng.random() < 0.35} for _ in range(k)],
                         'p': rng.randint(0, 2), 'c': rng.randint(0, 2)})
         return out
 
@@ -70,6 +71,20 @@ class C17(Prop):
             ok = fut.done() and not fut.cancelled() and fut.exception() is None and fut.result().data == b'pong'
             return sid, ok
 
+        class Pub:
+            """the application's publisher behind a request-channel: emits only while its subscription has not been cancelled"""
+            def __init__(self):
+                self.subscriber, self.cancelled, self.requested = None, False, 0
+
+            def subscribe(self, subscriber):
+                self.subscriber = subscriber
+                pub = self
+
+                class S:
+                    def request(self, n): pub.requested += n
+                    def cancel(self): pub.cancelled = True
+                subscriber.on_subscribe(S())
+
         ti = 0
         sid0, ok0 = await serve_one(0)
         for r in case['rounds']:
@@ -86,6 +101,13 @@ class C17(Prop):
                 s = Sub()
                 c.request_stream(Payload(b's')).subscribe(s)
                 subs.append(s)
+            pubs = []
+            if r.get('pending_channel'):
+                p = Pub()
+                s = Sub()
+                c.request_channel(Payload(b'ch'), publisher=p).subscribe(s)
+                subs.append(s)
+                pubs.append(p)
             await loop.settle()
             sent_before = len(t.sent)
             if r['cause'] == 'eof':
@@ -118,6 +140,14 @@ class C17(Prop):
                 reqs = [e[2].stream_id for e in nt.sent if isinstance(e[2], F.RequestResponseFrame)]
                 early_sid = reqs[0] if reqs else None
             sid, ok = await serve_one(ti)
+            # a publisher of the previous connection that was not told to stop goes on emitting
+            for p in pubs:
+                if p.subscriber is not None and not p.cancelled:
+                    try:
+                        p.subscriber.on_next(Payload(b'p-stale'), False)
+                    except Exception:
+                        pass
+            await loop.settle()
             ka0 = len([e for e in nt.sent if isinstance(e[2], F.KeepAliveFrame)])
             await loop.advance(2 * KA + 10)
             ka1 = len([e for e in nt.sent if isinstance(e[2], F.KeepAliveFrame)])
@@ -127,7 +157,8 @@ class C17(Prop):
                 'subs_failed': [any(e.startswith('error') for e in s.events) for s in subs],
                 'first_frame': first, 'served_sid': sid, 'served': ok, 'early_sid': early_sid, 'early': None if early is None else (early if isinstance(early, str) else 'future'),
                 'keepalives_in_2_periods': ka1 - ka0, 'timeouts': timeouts, 'setups': sum(1 for e in nt.sent if e[1].startswith('SETUP')),
-                'stale': [e[1][:60] for e in nt.sent if isinstance(e[2], F.RequestResponseFrame) and bytes(e[2].data or b'').startswith(b'p') and bytes(e[2].data) != b'ping'],
+                'stale': [e[1][:60] for e in nt.sent if isinstance(e[2], (F.RequestResponseFrame, F.PayloadFrame)) and bytes(e[2].data or b'').startswith(b'p') and bytes(e[2].data) not in (b'ping', b'pong')],
+                'pubs_cancelled': [p.cancelled for p in pubs if p.subscriber is not None],
             })
         evs, sends, anomalies = R.model_events()
         try:
@@ -159,6 +190,8 @@ class C17(Prop):
                 fails.append({'signature': 'pending-request-not-failed-on-reconnect', 'what': '%s: %s' % (ctx, r['pending_failed'])})
             if not all(r['subs_failed']):
                 fails.append({'signature': 'pending-stream-not-failed-on-reconnect', 'what': '%s: %s' % (ctx, r['subs_failed'])})
+            if not all(r.get('pubs_cancelled', [])):
+                fails.append({'signature': 'pending-channel-publisher-not-cancelled-on-reconnect', 'what': '%s: the local publisher of a pending request-channel was not cancelled' % ctx})
             if r['first_frame'] != 'SETUP' or r['setups'] != 1:
                 fails.append({'signature': 'no-fresh-setup-after-reconnect:' + c['cause'], 'what': '%s: first frame on the new transport is %s (%d SETUP frames)' % (ctx, r['first_frame'], r['setups'])})
             exp_sid = 3 if r['early'] == 'future' else 1
@@ -173,7 +206,7 @@ class C17(Prop):
         return fails
 
     def nontrivial(self, case, obs):
-        if any(r['cause'] == 'timeout' or r['pending_rr'] or r['pending_stream'] for r in case['rounds']):
+        if any(r['cause'] == 'timeout' or r['pending_rr'] or r['pending_stream'] or r.get('pending_channel') for r in case['rounds']):
             return json.dumps(case, sort_keys=True)
         return None
 
